@@ -1008,26 +1008,36 @@ theorem lazyInv_step {o m : Nat} {s s' : State} {tid : Nat} (li : LazyInv o m s)
         simp only at h
         by_cases ho : s.owner r = some tid
         · simp only [ho, if_true, Option.some.injEq] at h; subst h
+          have hc : (r :: s.finished).contains o = (o == r || s.finished.contains o) :=
+            List.contains_cons
           refine lazyInv_update li ht _ rfl ?_ ?_ ?_ ?_
-          · intro e; simp only [List.contains_cons]; simp [e]
-          · refine lazyOK_mono ?_ hp.2
+          · intro e
+            show (r :: s.finished).contains o = true
+            rw [hc, e, Bool.or_true]
+          · show lazyOK o m ((r :: s.finished).contains o) rest = true
+            refine lazyOK_mono ?_ hp.2
             intro e
-            simp only [List.contains_cons, Bool.or_eq_true] at e ⊢
-            rcases e with e | e
-            · exact Or.inr e
-            · simp only [finishes] at e
-              have : o = r := by simpa [eq_comm] using e
-              exact Or.inl (by simp [this])
+            rw [hc]
+            cases hfo : s.finished.contains o with
+            | true => rw [Bool.or_true]
+            | false =>
+              rw [hfo, Bool.false_or] at e
+              simp only [finishes] at e
+              have : r = o := by simpa using e
+              subst this; simp
           · intro hm
             have := li.held_after tid t ht (mem_drop.1 hm).1
-            simp only [List.contains_cons]; simp [this]
+            show (r :: s.finished).contains o = true
+            rw [hc, this, Bool.or_true]
           · intro u hu
+            show (r :: s.finished).contains o = false
+            have hu' : upd s.owner r none o = some u := hu
             by_cases e : o = r
-            · simp [upd, e] at hu
-            · have h2 : s.owner o = some u := by simpa [upd, e] using hu
-              have h3 := li.running_before u h2
-              simp only [List.contains_cons]
-              simp [h3, e]
+            · rw [e, upd_same] at hu'; cases hu'
+            · rw [upd_other _ _ e] at hu'
+              have h3 := li.running_before u hu'
+              rw [hc, h3, Bool.or_false]
+              simpa using e
         · simp [ho] at h
       | once r body =>
         simp only at h
@@ -1090,6 +1100,15 @@ theorem store_free {o m : Nat} {s : State} (g : Good s) (li : LazyInv o m s) {u 
     have h1 := li.held_after w t ht hmem
     have h2 := li.running_before u hrun
     rw [h1] at h2; cases h2
+
+/-- ... and nobody is about to request it -/
+theorem store_unrequested {o m : Nat} {s : State} (li : LazyInv o m s) {u : Nat}
+    (hrun : s.owner o = some u) (i : Nat) (t : Thread) (ht : s.threads[i]? = some t)
+    (rest : List Instr) : t.pc ≠ Instr.acq m :: rest := by
+  intro e
+  have h := li.prog_ok i t ht
+  rw [e, lazyOK_cons, Bool.and_eq_true, lazyOKI, Bool.and_eq_true, li.running_before u hrun] at h
+  simp at h
 
 theorem withFMT_lazy (k : Nat) : lazyDisciplined (withFMT k) = true := by
   unfold lazyDisciplined
